@@ -2,6 +2,7 @@ import AuthbossModel.DriverCS
 import AuthbossModel.Machine.Wire
 import AuthbossModel.DriverLock
 import AuthbossModel.DriverRedirect
+import AuthbossModel.DriverPolicy
 
 open AuthbossModel
 
@@ -11,6 +12,7 @@ def dispatch (d : M.DState) (line : String) : M.DState × String :=
   | "csrw" :: args => (d, CS.handle args)
   | "lock" :: args => (d, Lock.handle args)
   | "redir" :: args => (d, Redirect.handle args)
+  | "rules" :: args => (d, Policy.handle args)
   | "mcfg" :: args => M.handleLine d ("mcfg" :: args)
   | "m" :: args => M.handleLine d ("m" :: args)
   | _ => (d, "bad-op")
